@@ -12,7 +12,7 @@ import nauyaca.__main__ as cli  # noqa: E402
 from nauyaca.protocol.response import GeminiResponse  # noqa: E402
 from typer.testing import CliRunner  # noqa: E402
 
-OWN = {"C03": {"TofuAsRequested"}, "C11": {"TofuAsRequested"}, "C16": {"RedirectsAsRequested", "TofuAsRequested"},
+OWN = {"C03": {"TofuAsRequested"}, "C11": {"TofuAsRequested"}, "C16": {"RedirectsAsRequested", "TofuAsRequested", "ShownUnchanged"},
        "C19": {"UrlAsGiven"}}
 # spellings per kind: all accepted by the library (checked below with the library itself)
 URLS = {"lower": ["gemini://example.org/x"],
@@ -38,7 +38,12 @@ def denotes(url):
     return (p.hostname.lower(), p.port, p.path or "/", p.query)
 
 
-def run_case(st, url="gemini://example.org/x"):
+ANSWERS = {"plain": ["gemini://example.org/next", "/relative/target", "gemini://example.org/a%5Bb%5D"],
+           "markup": ["gemini://example.org/search?filter[name]=x", "gemini://example.org/[bold]x", "gemini://[2001:db8::1]/[red]"],
+           "closing": ["gemini://example.org/a[/]b", "gemini://example.org/x[/bold]"]}
+
+
+def run_case(st, url="gemini://example.org/x", target=None):
     rec = {}
 
     class Recorder:
@@ -53,6 +58,8 @@ def run_case(st, url="gemini://example.org/x"):
 
         async def get(self, url, **kw):
             rec["get"] = dict(kw, url=url)
+            if target is not None:
+                return GeminiResponse(status=30, meta=target, body=None, url=url)
             return GeminiResponse(status=20, meta="text/gemini", body="ok\n", url=url)
     args = ["get", url]
     if st["trustFlag"] != "default":
@@ -78,7 +85,11 @@ def run_case(st, url="gemini://example.org/x"):
         same = denotes(g["url"]) == denotes(url)
     except Exception:  # noqa: BLE001
         same = False
-    return {"k": "called", "url": "same" if same else "other:%s" % g["url"], "tofu": bool(c.get("trust_on_first_use", True)), "verify": bool(c.get("verify_ssl", False)),
+    shown = "n/a"
+    if target is not None:
+        out = "".join((r.output or "").split())             # (the console folds long lines)
+        shown = "verbatim" if (r.exit_code == 0 and "".join(target.split()) in out) else ("crashed" if r.exit_code != 0 else "altered:%s" % (r.output or "")[-120:])
+    return {"k": "called", "shown": shown, "url": "same" if same else "other:%s" % g["url"], "tofu": bool(c.get("trust_on_first_use", True)), "verify": bool(c.get("verify_ssl", False)),
             "max": str(c.get("max_redirects", 5)), "follow": bool(g.get("follow_redirects", True)), "timeout": str(float(c.get("timeout", 30.0)))}, args
 
 
@@ -90,7 +101,7 @@ def main(pid, rep=None, finish=True):
         rep.tlc("ClientCli(design)", r)
         if not r.ok:
             raise tlc.TLCError("design variant of ClientCli violates %s" % r.violated)
-        dev = tlc.expect_caught("ClientCli", "MC_ClientCli.cfg", {"DevVerifyDisablesTofu": ["TofuAsRequested"], "DevSchemePrefixed": ["UrlAsGiven"]}, timeout=300)
+        dev = tlc.expect_caught("ClientCli", "MC_ClientCli.cfg", {"DevVerifyDisablesTofu": ["TofuAsRequested"], "DevSchemePrefixed": ["UrlAsGiven"], "DevMarkupInterpreted": ["ShownUnchanged"]}, timeout=300)
         for d_, c_, _v in dev:
             if c_ is None:
                 raise tlc.TLCError("self-test: %s not caught" % d_)
@@ -99,8 +110,9 @@ def main(pid, rep=None, finish=True):
             st = plain(st)
             if st["out"]["k"] == "pending":
                 continue
-            for url in URLS[st["urlKind"]]:
-                got, args = run_case(st, url)
+            for url, target in [(u, None) for u in URLS[st["urlKind"]]] if st["answer"] == "content" else \
+                    [(URLS[st["urlKind"]][0], t) for t in ANSWERS[st["answer"]]]:
+                got, args = run_case(st, url, target)
                 n += 1
                 want = st["out"]
                 bad = set()
@@ -109,6 +121,8 @@ def main(pid, rep=None, finish=True):
                 else:
                     if got["url"] != want["url"]:
                         bad.add("UrlAsGiven")
+                    if got["shown"] != want["shown"]:
+                        bad.add("ShownUnchanged")
                     if got["tofu"] != want["tofu"]:
                         bad.add("TofuAsRequested")
                     if got["max"] != want["max"] or got["follow"] != want["follow"]:
@@ -117,7 +131,7 @@ def main(pid, rep=None, finish=True):
                         bad.add("VerifyAsRequested")
                 if bad:
                     mine = sorted(bad & own)
-                    desc = "`nauyaca %s`: the command constructs/asks %s, specification %s" % (" ".join(args), got, want)
+                    desc = "`nauyaca %s`%s: the command constructs/asks %s, specification %s" % (" ".join(args), " answered '30 %s'" % target if target else "", got, want)
                     if mine:
                         rep.violation({"formula": mine[0], "module": "ClientCli"}, "%s falsified: %s" % (mine, desc), None)
                     else:
